@@ -1,7 +1,7 @@
 INIT Init
 NEXT Next
 CONSTANTS
-  Leaves = {"int", "str", "None", "A", "B", "object", "Any", "NT", "TD", "P", "T", "TB", "TC", "list", "dict", "tuple", "type", "List", "Dict", "Tuple", "Type", "Callable", "Sequence", "Lit1", "Lit1a", "LitNested", "LitTrue", "LitNone", "LitNeg", "LitDup", "tuple0", "Tuple0"}
+  Leaves = {"int", "str", "None", "A", "TimeoutError", "Warning", "B", "object", "Any", "NT", "TD", "P", "T", "TB", "TC", "list", "dict", "tuple", "type", "List", "Dict", "Tuple", "Type", "Callable", "Sequence", "Lit1", "Lit1a", "LitNested", "LitTrue", "LitNone", "LitNeg", "LitDup", "tuple0", "Tuple0"}
   Unary = {"Quote", "Optional", "Union1", "list", "List", "TList", "Sequence", "type", "Type", "tupleEll", "TupleEll", "tuple1", "Tuple1", "Annotated1", "CallableEll", "Callable0", "CallableToNone", "AbcCallable", "dictStr", "StarTail", "StarOnly", "UnpackTail"}
   Binary = {"Or", "Union2", "tuple2", "Tuple2", "dict2", "Dict2", "Callable1"}
   TopOnly = {"Final", "ClassVar"}
@@ -11,6 +11,7 @@ CONSTANTS
   FixedStar = TRUE
   FixedFinalInString = TRUE
   FixedNestedLiteral = TRUE
+  BugBuiltinsFirst = FALSE
 INVARIANT AnnotationRoutesAgree
 INVARIANT NoRouteRaises
 CHECK_DEADLOCK FALSE
